@@ -9,30 +9,42 @@ from props import c13_util as U
 PROP = "C13"
 LEVEL = "proof"
 GEN_UNITS = []
-COQ_TARGETS = ["Props/C13.vo", "Alg/C13Harness.vo", "Alg/C13Config.vo", "Alg/C13Vec.vo", "Model/Harness.vo"]
+COQ_TARGETS = ["Props/C13.vo", "Alg/C13Harness.vo", "Alg/C13Config.vo", "Alg/C13Vec.vo", "Alg/C13StepArith.vo", "Model/Harness.vo"]
 THEOREM_FILES = ["Props/C13.v"]
 COQ_IMPORTS = ("From Coq Require Import List ZArith Bool QArith Qcanon.\n"
-               "From PV Require Import Base.Index Np.Array Model.Sparse Model.Harness Alg.C13Samplers Alg.C13Solver Alg.C13Config Alg.C13Harness.\n")
+               "From PV Require Import Base.Index Np.Array Model.Sparse Model.Harness Model.Repr Alg.C13Samplers Alg.C13Solver Alg.C13Steps Alg.C13Config Alg.C13Harness Alg.C13StepArith.\n")
 RULE = ("samplers: dense / sparse integer tensors with 2..12 cells (empty, one nonzero, some, nearly full, full), every sampler "
-        "kind, counts 0..6, numpy's draws captured (and in a separate stream forced to 0.0 / 1-2^-53) and replayed through the "
-        "model; solves: SGD/Adam/Adagrad on 2x2..3x3x2 problems with rates from 1e-3 to 30 (failing epochs), max_fails 0..2, "
-        "max_iters 0..5, finite and infinite lower bounds, estimates captured at every epoch boundary; reuse: 2-3 solves on one "
-        "object vs fresh objects under the same seeds; the fixed regression inputs of the repaired findings A-35/A-36/A-37/A-48/C13-S2; "
-        "config: every row of the GCPSampler (kind x request) table on dense / sparse tensors with sizes on both sides of the "
-        "1e3 / 1e5 / 1e6 thresholds, counts read back from the sampler object; lbfgsb: what is handed to / returned by "
-        "scipy.optimize.fmin_l_bfgs_b captured; non-trivial = more than one cell and at least one sample / epoch")
-EXPLANATION = ("Theorems (Alg/C13Samplers.v, C13Solver.v, C13Steps.v) are about state machines whose random draws, objective "
-               "estimates and update steps are inputs; the correspondence captures exactly those inputs from a real pyttb run "
-               "(numpy.random and pyttb.gcp.optimizers.estimate are wrapped inside the harness process only) and replays them. "
-               "Each sampler / solve is checked twice: '<op>' = pyttb agrees with the model, '<op>_prop' = pyttb's own "
-               "output satisfies what C13 states.  A single behaviour is accepted everywhere except inside the trigger region of "
-               "the open finding C13-S1 (short zero supply), where the faithful and the repaired stratified sampler are both accepted.")
-CORRESPONDENCE_ONLY = ["Adam / Adagrad update arithmetic (only the final max(lower_bound, .) and reset_state are theorems; the numerics are exercised by the solve runs)",
-                       "scipy.optimize.fmin_l_bfgs_b itself (oracle; its contract 'never worse than the start, result inside the bounds' is checked on sampled runs)",
-                       "GCPSampler default counts / LBFGSB wrapper: theorems are about hand models (Alg/C13Config.v) tied by read-back / capture correspondence, not by translation"]
+        "kind, counts 0..6 (incl. more nonzero samples than nonzeros), numpy's draws captured (and in a separate stream forced to 0.0 / "
+        "1-2^-53) and replayed through the model; solves: SGD/Adam/Adagrad on 2x2..3x3x2 problems with rates from 1e-3 to 30 (failing "
+        "epochs), max_fails 0..2, max_iters 0..5, printitn 0..2, finite and infinite lower bounds, estimates captured at every epoch "
+        "boundary, one third through the gcp_opt driver (init as ktensor with non-unit weights / list / random); step: every "
+        "update_step / set_failed_epoch of a solve captured (inputs, private state before and after, np.sqrt results), the first two, the "
+        "first after a failed epoch and the last replayed through the exact-rational step models; reuse: 2-3 solves on one object vs "
+        "fresh objects under the same seeds; the fixed regression inputs of the repaired findings A-35/A-36/A-37/A-48/C13-S2; config: "
+        "every row of the GCPSampler (kind x request) table on dense / sparse tensors with sizes on both sides of the 1e3 / 1e5 / 1e6 "
+        "thresholds, counts read back from the sampler object; lbfgsb: option corners (maxls 1..3 = abandoned line searches, maxiter "
+        "0/1/3, maxfun 1..3, pgtol 1e10, m=1, factr 10 / 1e16), initial factors C-/F-ordered / non-contiguous views, data scaled by "
+        "2^-20..2^20, starts scaled by 2^-3..2^3 (infeasible starts), masks, one third through gcp_opt (mask as tensor / array); what "
+        "is handed to / answered by scipy.optimize.fmin_l_bfgs_b captured and the answered vector replayed through the Coq wrapper model; "
+        "lbfgsb_reuse: 2-3 solves of different sizes on one LBFGSB object vs fresh objects; non-trivial = more than one cell and at "
+        "least one sample / epoch")
+EXPLANATION = ("Theorems (Alg/C13Samplers.v, C13Solver.v, C13Steps.v, C13StepArith.v, C13Config.v) are about state machines whose random "
+               "draws, objective estimates, square roots and scipy's answer are inputs; the correspondence captures exactly those inputs "
+               "from a real pyttb run (numpy.random, pyttb.gcp.optimizers.estimate / fmin_l_bfgs_b / the name np inside "
+               "pyttb.gcp.optimizers are wrapped inside the harness process only) and replays them. Each sampler / solve is checked "
+               "twice: '<op>' = pyttb agrees with the model, '<op>_prop' = pyttb's own output satisfies what C13 states. A single "
+               "behaviour is accepted everywhere except inside the trigger regions of the open findings C13-S1 (short zero supply, "
+               "decided from the inputs and the captured draws alone: faithful and repaired stratified sampler both accepted) and "
+               "C13-L1 (abandoned line search: info['final_f'] = scipy's reported value or the objective of the returned model).")
+CORRESPONDENCE_ONLY = ["floating-point rounding of the Adam / Adagrad / SGD update arithmetic (the exact-rational step functions are theorems: closed forms, direction, bounds, state updates; pyttb's floats are compared with them to 1e-9 on the captured steps) and numpy's sqrt (oracle: >= 0 and s*s = x to 1e-9 checked on every captured call)",
+                       "scipy.optimize.fmin_l_bfgs_b itself (oracle; its contract 'returned point never worse than a feasible start, result inside the bounds' is checked on sampled runs incl. abandoned line searches)",
+                       "GCPSampler default counts / LBFGSB wrapper / update steps: theorems are about hand models (Alg/C13Config.v, C13Steps.v) tied by read-back / capture correspondence, not by translation",
+                       "gcp_opt driver (initial-guess normalisation, mask conversion, dispatch): exercised by the solve / lbfgsb cases that go through it (returned initial model has unit weights and denotes the init handed in; random init scaled to the data norm; caller's data unchanged), no theorem"]
 ASSUMPTIONS = ["numpy draws are multiples of 2^-53 in [0,1); the float product u*d is taken exactly (its rounding is not modelled)",
                "objective estimates are compared by their exact float values; NaN estimates are outside the model (total order)",
-               "scipy.optimize.fmin_l_bfgs_b never returns a point with a higher objective than the start (oracle contract)"]
+               "scipy.optimize.fmin_l_bfgs_b returns a point of the start's length that is never worse than a FEASIBLE start and keeps it feasible (scipy_contract); nothing is assumed about the value it reports — the clause 'reported value = objective at the returned point' (scipy_reports_value) is a separate hypothesis of C13_lbfgsb_final_f and fails after an abandoned line search (finding C13-L1)",
+               "an infeasible start is first projected into the box by scipy: 'the start' of the never-worse clause is that projected point",
+               "of the square root only 0 <= sqrt(x) is assumed in the step theorems"]
 
 D53 = 2 ** 53
 
@@ -78,6 +90,11 @@ def gen_cases(rng, tier):
                          "seed": rng.randrange(10 ** 6), "force": force, "kind": kind}
                     for op in ("stratified", "stratified_prop", "semistrat", "semistrat_prop"):
                         cases.append(Case(op, dict(a), n > 1 and cn + cz > 0))
+                    if subs and len(subs) < n and (cn, cz) in ((2, 3), (3, 6)):          # Poisson(0) is always 0: no zero samples from a full tensor
+                        # the same counts arising as the Poisson draws of the uniform gradient sampler of a sparse tensor
+                        b = dict(a); b["via_poisson"] = rng.randint(1, n); b["force"] = None
+                        for op in ("stratified", "stratified_prop"):
+                            cases.append(Case(op, dict(b), n > 1 and cn + cz > 0))
     # ---- solves
     nsolve = 120 if big else 36
     for k in range(nsolve):
@@ -87,16 +104,53 @@ def gen_cases(rng, tier):
                   "rate": rng.choice([0.001, 0.01, 0.125, 0.5, 2.0, 30.0]), "decay": rng.choice([0.1, 0.5]),
                   "max_fails": rng.randint(0, 2), "epoch_iters": rng.randint(1, 3), "max_iters": rng.choice([0, 1, 2, 3, 5]),
                   "tol": rng.choice([None, None, None, 0.5, 1e6])})
+        a["printitn"] = rng.choice([0, 0, 1, 2])
+        a["layout"] = rng.choice(["C", "F", "view"])          # memory layout of the initial factor matrices
+        a["dscale"] = rng.choice([0, 0, 0, -10, 10])          # data magnitude 2^-10 .. 2^10
+        if k % 3 == 2:          # through the gcp_opt driver: initial guess normalised there (unit weights, C-ordered factors)
+            a.update({"via": "gcp_opt", "init_kind": rng.choice(["ktensor", "list", "random"]),
+                      "init_weights": [rng.choice([2.0, 0.5, 3.0]) for _ in range(a["R"])]})
         cases.append(Case("solve", a, a["max_iters"] > 0))
         cases.append(Case("solve_trace", dict(a), a["max_iters"] > 0))
-    # ---- L-BFGS-B wrapper (scipy is an oracle): objective never above the start, bounds, callback slot, reuse
-    for k in range(40 if big else 10):
-        shp = rng.choice([(2, 2), (2, 3), (3, 2, 2)])
+    # ---- L-BFGS-B wrapper (scipy is an oracle): option corners that change scipy's control flow (abandoned line searches,
+    #      budgets of 0..3 iterations / evaluations), memory layouts of the initial factors, data / start magnitudes 2^-20..2^20;
+    #      the vector scipy answers is replayed through the Coq wrapper model (returned model = that vector, read back)
+    corners = U.lbfgsb_option_corners()
+    for k in range((4 if big else 2) * len(corners)):
+        opts = dict(corners[k % len(corners)])
+        shp = rng.choice([(2, 2), (2, 3), (3, 2, 2), (3, 1), (1, 2, 2)])
         a = U.rand_problem(rng, shp)
         n = math.prod(shp)
-        a.update({"maxiter": rng.choice([1, 3, 20]), "callback": rng.random() < 0.5,
+        if "maxiter" not in opts:
+            opts["maxiter"] = rng.choice([20, 100, 1000])
+        a.update({"opts": opts, "callback": rng.random() < 0.5, "layout": rng.choice(["C", "F", "view"]),
+                  "dscale": rng.choice([0, 0, 0, -20, 20, 7]), "iscale": rng.choice([0, 0, 0, -3, 3]),
                   "mask": None if rng.random() < 0.6 else [rng.randint(0, 1) for _ in range(n)]})
+        if k % 3 == 1:          # through the gcp_opt driver (mask as a tensor or as an array)
+            a.update({"via": "gcp_opt", "init_kind": rng.choice(["ktensor", "list", "random"]), "printitn": rng.choice([0, 1]),
+                      "init_weights": [rng.choice([2.0, 0.5, 3.0]) for _ in range(a["R"])], "mask_kind": rng.choice(["tensor", "ndarray"])})
         cases.append(Case("lbfgsb", a, True))
+        cases.append(Case("lbfgsb_final_f", dict(a), True))
+    # ---- a sequence of L-BFGS-B solves of different sizes on ONE object vs fresh objects
+    for k in range(24 if big else 8):
+        opts = dict(corners[(3 * k) % len(corners)])
+        opts.setdefault("maxiter", rng.choice([3, 20, 100]))
+        probs = []
+        for j in range(rng.randint(2, 3)):
+            p = U.rand_problem(rng, rng.choice([(2, 2), (2, 3), (3, 2, 2), (3, 1)]))
+            p.update({"layout": rng.choice(["C", "F", "view"]), "mask": None})
+            probs.append(p)
+        cases.append(Case("lbfgsb_reuse", {"opts": opts, "probs": probs}, True))
+    # ---- update-step arithmetic: every step of a solve captured, a few replayed through the exact-rational step models
+    for k in range(72 if big else 24):
+        shp = rng.choice([(2, 2), (2, 3), (3, 2, 2), (3, 1)])
+        a = U.rand_problem(rng, shp)
+        a["sparse"] = False
+        a.update({"opt": ["sgd", "adam", "adagrad"][k % 3], "rate": rng.choice([0.001, 0.01, 0.125, 0.5, 2.0]),
+                  "decay": rng.choice([0.1, 0.5]), "max_fails": rng.randint(0, 2), "epoch_iters": rng.randint(1, 3),
+                  "max_iters": rng.choice([1, 2, 3, 5]), "beta_1": rng.choice([0.9, 0.5, 0.0]), "beta_2": rng.choice([0.999, 0.75]),
+                  "epsilon": rng.choice([1e-8, 0.125])})
+        cases.append(Case("step", a, True))
     # ---- reuse of one solver object
     for k in range(30 if big else 9):
         opt = ["sgd", "adam", "adagrad"][k % 3]
@@ -143,16 +197,22 @@ def run_impl(c):
             o = U.run_stratified(a, semi=True)
         elif c.op in ("solve", "solve_trace"):
             o = U.run_solve(a)
+        elif c.op == "step":
+            o = U.run_step(a)
         elif c.op == "reuse":
             o = U.run_reuse(a)
-        elif c.op == "lbfgsb":
+        elif c.op in ("lbfgsb", "lbfgsb_final_f"):
             o = U.run_lbfgsb(a)
+        elif c.op == "lbfgsb_reuse":
+            o = U.run_lbfgsb_reuse(a)
         elif c.op == "config":
             o = U.run_config(a)
         else:
             raise ValueError(c.op)
     except Exception as ex:
         o = {"exc": type(ex).__name__, "msg": str(ex)[:200]}
+        if c.op.startswith("lbfgsb"):
+            o["meta"] = {"maxiter0": a.get("opts", {}).get("maxiter") == 0}
         if c.op.startswith("solve") and a.get("sparse") and "broadcast" in str(ex):
             # the stratified function/gradient sampler came back with fewer subscripts than values (finding C13-S1)
             o["meta"] = {"short": True}
@@ -162,6 +222,48 @@ def run_impl(c):
 
 def _gqlist(l):
     return "(@nil Qc)" if not l else "[" + "; ".join(gq(Fraction(x)) for x in l) + "]"
+
+
+def _gzmat3(t):
+    return "(@nil (list (list Z)))" if not t else "[" + "; ".join(gzmat(m) for m in t) + "]"
+
+
+def _q(x):
+    return gq(Fraction(x))
+
+
+def _adam_state(st):
+    return f"(mkAdam Qc {_gqlist(st['m'])} {_gqlist(st['v'])} {_gqlist(st['mp'])} {_gqlist(st['vp'])} {gnat(st['tot'])})"
+
+
+def _step_check(a, o):
+    """the captured steps through qsgd_check / qadam_check / qadagrad_check (Alg/C13StepArith.v): exact rationals, np.sqrt as oracle"""
+    parts = []
+    rate, decay = _q(float(a["rate"])), _q(float(a["decay"]))
+    for st in o["steps"]:
+        lb = gopt(st["lb"], _q)
+        xs, gs, out, step = _gqlist(st["xs"]), _gqlist(st["gs"]), _gqlist(st["out"]), _q(st["step"])
+        if a["opt"] == "sgd":
+            parts.append(f"qsgd_check {rate} {decay} {gnat(st['nf'])} {lb} {xs} {gs} {out} {step}")
+        elif a["opt"] == "adagrad":
+            if len(st["sq_out"]) != 1:
+                return "false"
+            parts.append(f"qadagrad_check {lb} {_q(st['before']['gsum'])} {xs} {gs} {_q(st['sq_out'][0])} {out} "
+                         f"{_q(st['after']['gsum'])} {step}")
+        else:
+            af = st["after"]
+            parts.append(f"qadam_check {rate} {decay} {_q(float(a['beta_1']))} {_q(float(a['beta_2']))} {_q(float(a['epsilon']))} "
+                         f"{gnat(a['epoch_iters'])} {gnat(st['nf'])} {lb} {_adam_state(st['before'])} {xs} {gs} {_gqlist(st['sq_out'])} "
+                         f"{out} {_gqlist(af['m'])} {_gqlist(af['v'])} {_gqlist(af['mp'])} {_gqlist(af['vp'])} {gnat(af['tot'])} {step}")
+    for f in o["fails"]:
+        if a["opt"] == "adam":
+            if f["before"]["tot"] < a["epoch_iters"]:
+                return "false"
+            parts.append(f"qadam_failed_check {gnat(a['epoch_iters'])} {_adam_state(f['before'])} {_gqlist(f['after']['m'])} "
+                         f"{_gqlist(f['after']['v'])} {gnat(f['after']['tot'])}")
+        elif a["opt"] == "adagrad":
+            parts.append("true" if Fraction(f["after"]["gsum"]) == 0 else "false")
+    return " && ".join(parts) if parts else None
 
 
 def _ints(l):
@@ -207,24 +309,15 @@ def coq_check(c, o):
         if c.op in ("stratified", "semistrat"):
             nidx, draws = gnlist(o["nidx"]), gzmat(o["draws"])
             got = len(o["subs"]) - cn          # zero subscripts actually returned
-            wchk = "true"
-            if cn > 0:
-                wchk += f" && weights_close {_gqlist(wn)} (zq {gz(nnz)}) {gnat(cn)}"
+            # ALL weights against the model of C13_stratified_weights: cn weights nnz/cn then cz weights zeros/cz, sized by the request
+            wchk = f"qvec_close tol9 {_gqlist(o['weights'])} (strat_weights (zq {gz(nnz)}) (zq {gz(zero_total)}) {gnat(cn)} {gnat(cz)})"
             if semi:
                 subs = f"zsemi_subs {S} {nidx} {draws}"
                 vals = f"zsemi_vals {S} {nidx} {draws}"
-                wchk += " && " + ("true" if len(wz) == cz else "false")
-                if cz > 0:
-                    wchk += f" && weights_close {_gqlist(wz)} (zq {gz(zero_total)}) {gnat(cz)}"
                 return f"zmat_eqb ({subs}) {gzmat(o['subs'])} && vec_eqb ({vals}) {gzlist(o['vals'])} && {wchk}"
             subs = f"zstrat_subs {S} (znzidx {S}) {nidx} {draws} {gnat(cz)}"
             vals = f"zstrat_vals {S} {nidx} {gnat(cz)}"
-            if len(wz) == cz:
-                if cz > 0:
-                    wchk += f" && weights_close {_gqlist(wz)} (zq {gz(zero_total)}) {gnat(cz)}"
-                faithful = f"(vec_eqb ({vals}) {gzlist(o['vals'])} && {wchk})"
-            else:
-                faithful = "false"
+            faithful = f"(vec_eqb ({vals}) {gzlist(o['vals'])} && {wchk})"
             both = f"zmat_eqb ({subs}) {gzmat(o['subs'])} && "
             if not short:
                 return both + faithful
@@ -260,15 +353,48 @@ def coq_check(c, o):
                 f"vec_eqb (zreported_trace {gzlist(ests)} {gnat(a['max_iters'])} {s}) {gzlist(trace)} && "
                 f"{'true' if o['step_trace_len'] == len(trace) and o['init_unchanged'] else 'false'} && "
                 f"{bounds} && {'true' if o['boundary_lb_ok'] else 'false'}")
+    if c.op == "step":
+        return _step_check(a, o)
     if c.op == "lbfgsb":
-        vals = [o["f0"]] + [r[k] for r in o["outs"] for k in ("final_f", "f_end")]
-        (zs, _) = U.scale_many([vals], [])
-        f0, rest = zs[0][0], zs[0][1:]
-        ok = all(r["init_unchanged"] and r["shapes_ok"] and (o["lb"] is None or r["min_entry"] >= o["lb"]) for r in o["outs"])
-        same = o["outs"][0]["flat"] == o["outs"][1]["flat"]
-        return (f"forallb (fun v => Z.leb v {gz(f0)}) {gzlist(rest)} && {'true' if ok else 'false'} && "
-                f"{'true' if same else 'false'} && {'true' if o['callback_restored'] else 'false'} && "
-                f"{'false' if o['callback_called'] is False else 'true'} && {'true' if o['wrap_ok'] else 'false'}")
+        parts = []
+        for r in o["outs"]:
+            z, zf = U.lb_scale(r)
+            K0 = f"(mkK {gzlist([z(w) for w in r['weights']])} {_gzmat3([[[z(v) for v in row] for row in f] for f in r['start']])})"
+            lbq = gopt(r["lb"], lambda v: gz(z(v)))
+            # info["final_f"]: what scipy reported (the model, faithful to the source).  Only inside the trigger region of the open
+            # finding C13-L1 (abandoned line search) the repaired behaviour — the objective of the returned model — is accepted too.
+            ff = r["final_f"]
+            if r["abandoned"] and Fraction(ff) == Fraction(r["f_end"]):
+                ff = r["scipy_f"]
+            parts.append(f"zlb_ok {K0} {lbq} {gzlist([z(v) for v in r['x']])} {gz(zf(r['scipy_f']))} {gzlist([z(v) for v in r['x0']])} "
+                         f"{gnat(r['nvec'])} {_gzmat3([[[z(v) for v in row] for row in f] for f in r['factors']])} {gz(zf(ff))}")
+            parts.append(f"Z.leb {gz(zf(r['f_end']))} {gz(zf(r['f0']))}")          # never worse than the start
+            # the monitor: number of callbacks <= max(maxiter, 1), time_trace slots as modelled (C13_lbfgsb_monitor); max(maxiter, 1) slots
+            # (the repair) are accepted only for maxiter = 0, the trigger region of the open finding C13-L2
+            mi = a["opts"]["maxiter"]
+            slots = "monitor_slots_fixed" if (mi == 0 and r["trace_len"] == 1) else "monitor_slots"
+            parts.append(f"Nat.leb {gnat(r['cb_calls'])} (Nat.max {gnat(mi)} 1) && Nat.eqb {gnat(r['trace_len'])} ({slots} {gnat(mi)}) && "
+                         f"negb (monitor_raises {gnat(r['trace_len'])} {gnat(r['cb_calls'])}) && Nat.eqb {gnat(r['cb_calls'])} {gnat(r['nit'])}")
+            parts.append("true" if r["init_unchanged"] and r["shapes_ok"] and r["slots_ok"] and r["res_weights"] == r["weights"]
+                         and r["nbounds"] == r["nvec"] else "false")
+        same = o["outs"][0]["factors"] == o["outs"][1]["factors"] and o["outs"][0]["final_f"] == o["outs"][1]["final_f"]
+        # the user's callback runs (inside the monitor) whenever scipy completed an iteration
+        cb_ok = o["callback_called"] is None or o["callback_called"] == any(r["nit"] >= 1 for r in o["outs"])
+        parts.append("true" if same and o["callback_restored"] and cb_ok else "false")
+        return " && ".join(parts)
+    if c.op == "lbfgsb_final_f":
+        # info["final_f"] is the objective of the returned model (hence no worse than the start): C13_lbfgsb_final_f
+        parts = []
+        for r in o["outs"]:
+            _, zf = U.lb_scale(r)
+            parts.append(f"Z.eqb {gz(zf(r['final_f']))} {gz(zf(r['f_end']))} && Z.leb {gz(zf(r['final_f']))} {gz(zf(r['f0']))}")
+        return " && ".join(parts)
+    if c.op == "lbfgsb_reuse":
+        if any("exc" in r for r in o["reused"] + o["fresh"]):
+            return "false"
+        re_, fr_ = U.scale_many([r["flat"] for r in o["reused"]], [r["flat"] for r in o["fresh"]])
+        ok = o["restored"] and all(r["le"] for r in o["reused"])
+        return f"list_eqb vec_eqb {gzmat(re_)} {gzmat(fr_)} && {'true' if ok else 'false'}"
     if c.op == "reuse":
         if any("exc" in r for r in o["reused"] + o["fresh"]):
             return "false"
@@ -292,6 +418,8 @@ def oracle(c, o):
 TRIGGERS = {      # only the OPEN findings (A-47, C13-S1, C13-S3); the repaired ones are regression cases in gen_cases
     "sptensor_without_nonzeros": lambda c: c.op.split("_")[0] in ("stratified", "semistrat") and not c.args["subs"] and c.args["cn"] == 0,
     "semistrat_zero_hits_nonzero": lambda c: c.op == "semistrat_prop" and bool(c.meta.get("semi_hit")),
+    "lbfgsb_line_search_abandoned": lambda c: c.op == "lbfgsb_final_f" and bool(c.meta.get("abandoned")),
+    "lbfgsb_maxiter_zero": lambda c: c.op.startswith("lbfgsb") and bool(c.meta.get("maxiter0")),
     "zero_supply_short": lambda c: c.op in ("stratified", "stratified_prop", "solve", "solve_trace") and bool(c.meta.get("short")),
 }
 WITNESSES = U.WITNESSES
